@@ -72,9 +72,13 @@ func (e *ExecutorEngine) StartOperation(ctx context.Context, id string, payload 
 	return nil
 }
 
-// StopSubscription will stop an active subscription.
+// StopSubscription will stop an active subscription. The completion is only reported for an operation that
+// was actually stopped: an id that is unknown or whose operation has already been answered with its terminal
+// message must not get a (second) one.
 func (e *ExecutorEngine) StopSubscription(id string, eventHandler EventHandler) error {
-	e.subCancellations.Cancel(id)
+	if !e.subCancellations.Cancel(id) {
+		return nil
+	}
 	eventHandler.Emit(EventTypeOnSubscriptionCompleted, id, nil, nil)
 	return nil
 }
